@@ -151,7 +151,7 @@ def _py_ann(t: T) -> str:
     if k == "tupleu":
         np_, mode, nm = t.extra
         pre, mid, suf = a[:np_], a[np_:np_ + nm], a[np_ + nm:]
-        inner = f"Tuple[{mid[0]}, ...]" if mode == "var" else "Tuple[" + ", ".join(mid) + "]"
+        inner = f"Tuple[{mid[0]}, ...]" if mode == "var" else ("Tuple[" + ", ".join(mid) + "]" if mid else "Tuple[()]")
         return "Tuple[" + ", ".join(pre + [f"Unpack[{inner}]"] + suf) + "]"
     if k == "dict":
         return f"Dict[{a[0]}, {a[1]}]"
@@ -436,7 +436,7 @@ class SchemaGen:
         if self.o.classes:
             choices += ["data", "data"]
         if self.o.named:
-            choices += ["nt", "td"] + ([] if self.o.coq_only else ["tupleu"])
+            choices += ["nt", "td", "tupleu"]
         if self.o.unions:
             choices += ["union"]
         if self.o.literals:
@@ -452,13 +452,7 @@ class SchemaGen:
             return T(k, [self.const_type() if (self.o.coq_only and self.o.named and r.random() < 0.08) else self.gen_type(d - 1)
                          for _ in range(r.randrange(0 if self.o.coq_only else 1, 4))])
         if k == "tupleu":
-            np_ = r.randrange(0, 3)
-            ns_ = r.randrange(0, 3)
-            mode = r.choice(["var", "var", "fix"])
-            nm = 1 if mode == "var" else r.randrange(1, 3)
-            # element types kept simple and mutually distinguishable on the wire
-            mk = lambda: r.choice([self.scalar(), self.leaf(), T("opt", [self.scalar()]), T("list", [self.scalar()])])
-            return T("tupleu", [mk() for _ in range(np_ + nm + ns_)], extra=(np_, mode, nm))
+            return self.tupleu_type(d)
         if k in ("dict", "mapping", "ordereddict", "chainmap", "mappingproxy"):
             return T(k, [self.key_type(), self.gen_type(d - 1)])
         if k == "counter":
@@ -487,6 +481,19 @@ class SchemaGen:
                     out.append(v)
             return T("lit", extra=out)
         raise AssertionError(k)
+
+    def tupleu_type(self, d: int) -> T:
+        r = self.rng
+        np_ = r.randrange(0, 3)
+        ns_ = r.randrange(0, 3)
+        mode = r.choice(["var", "var", "fix"])
+        nm = 1 if mode == "var" else r.randrange(0 if self.o.coq_only else 1, 3)
+        # element types kept simple and mutually distinguishable on the wire
+        mk = lambda: r.choice([self.scalar(), self.leaf(), T("opt", [self.scalar()]), T("list", [self.scalar()])])
+        if self.o.coq_only:
+            # Coq stream: any element type of the grammar, now and then a constant position (never reads its item)
+            mk = lambda: self.const_type() if r.random() < 0.08 else self.gen_type(min(d - 1, 1))
+        return T("tupleu", [mk() for _ in range(np_ + nm + ns_)], extra=(np_, mode, nm))
 
     def union_type(self, d: int) -> T:
         """wire-disjoint unions: members told apart by JSON type of their basic form"""
@@ -900,7 +907,7 @@ from harness.vlib import coq_str, coq_z  # noqa: E402
 def in_coq(t: T, fam: Family, seen=None) -> bool:
     seen = seen or set()
     for n in t.walk():
-        if n.kind in ("seq", "deque", "mapping", "ordereddict", "counter", "chainmap", "defaultdict", "mappingproxy", "union", "lit", "tupleu"):
+        if n.kind in ("seq", "deque", "mapping", "ordereddict", "counter", "chainmap", "defaultdict", "mappingproxy", "union", "lit"):
             return False
         if n.kind == "leaf" and n.name == "timezone":
             pass
@@ -937,6 +944,11 @@ def coq_sty(t: T) -> str:
         return f"(STupleVar {a[0]})"
     if k == "tuplefix":
         return "(STupleFix [" + "; ".join(a) + "])"
+    if k == "tupleu":
+        np_, mode, nm = t.extra
+        pre, mid, suf = a[:np_], a[np_:np_ + nm], a[np_ + nm:]
+        m = f"(STupleVar {mid[0]})" if mode == "var" else "(STupleFix [" + "; ".join(mid) + "])"
+        return "(STupleU [" + "; ".join(pre) + "] " + m + " [" + "; ".join(suf) + "])"
     if k == "dict":
         return f"(SDict {a[0]} {a[1]})"
     if k == "opt":
